@@ -469,6 +469,11 @@ package callbacks
 //@ event calldyn local:assignValue
 //@   in callbacks.ConvertToAssignments
 //@   do modelWritten = 1
+//@ site update-key-probe
+//@   match calldyn Field.ValueOf
+//@   in callbacks.ConvertToAssignments
+//@   min-sites 1
+//@   assume-after field-readers-do-not-run-updates: modelWritten == old(modelWritten)
 //@ site update-key-condition-only-for-a-set-key
 //@   match call gorm.(*Statement).AddClause
 //@   in callbacks.ConvertToAssignments
